@@ -1,2 +1,110 @@
-(* C01 — placeholder until the proofs land; see Proofs/LatticeFinalize.v *)
-From TFL Require Import Model.LatticeFinalize.
+(* C01 — Lattice weight constraint returns kernels meeting every strict shape
+   constraint.  Property theorems only; proofs in Proofs/Lattice*.v.
+
+   Objects: [finalize c W] models lattice_lib.finalize_constraints applied to an
+   ARBITRARY kernel W (so the statements cover every number of Dykstra
+   iterations, every other constraint family configured alongside, and
+   finalize_constraints() of a non-strict layer); [LC c ran Wd] models the strict
+   LatticeConstraints.__call__ applied to the output Wd of the Dykstra stage.
+   [cfg_valid] is what verify_hyperparameters guarantees.  Guards:
+   [documented_exception] (several trapezoid trusts sharing a conditional
+   feature while Edgeworth trusts exist - tolerated by the property) and
+   [trap_mono_cond_with_edgeworth] (known finding D1, refuted below). *)
+From TFL Require Import Proofs.LatticeSpecFacts Proofs.LatticeFinalize.
+Open Scope Q_scope.
+
+Theorem C01_finalize_any_mode_monotone : forall c, cfg_valid c -> forall W,
+  ~ trap_mono_cond_with_edgeworth c -> monotone_kernel c (finalize c W).
+Proof. exact finalize_monotone. Qed.
+Print Assumptions C01_finalize_any_mode_monotone.
+
+Theorem C01_finalize_any_mode_edgeworth : forall c, cfg_valid c -> forall W t,
+  In t (l_edge c) -> edgeworth_holds (l_shape c) t (finalize c W).
+Proof. exact finalize_edgeworth. Qed.
+Print Assumptions C01_finalize_any_mode_edgeworth.
+
+Theorem C01_finalize_any_mode_trapezoid : forall c, cfg_valid c -> forall W t,
+  ~ documented_exception c -> In t (l_trap c) -> trapezoid_holds (l_shape c) t (finalize c W).
+Proof. exact finalize_trapezoid. Qed.
+Print Assumptions C01_finalize_any_mode_trapezoid.
+
+Theorem C01_monotone : forall c, cfg_valid c -> forall ran Wd,
+  block_ok c ran -> ~ trap_mono_cond_with_edgeworth c -> monotone_kernel c (LC c ran Wd).
+Proof. exact constraint_monotone. Qed.
+Print Assumptions C01_monotone.
+
+Theorem C01_edgeworth : forall c, cfg_valid c -> forall ran Wd t,
+  block_ok c ran -> In t (l_edge c) -> edgeworth_holds (l_shape c) t (LC c ran Wd).
+Proof. exact constraint_edgeworth. Qed.
+Print Assumptions C01_edgeworth.
+
+Theorem C01_trapezoid : forall c, cfg_valid c -> forall ran Wd t,
+  block_ok c ran -> ~ documented_exception c -> In t (l_trap c) -> trapezoid_holds (l_shape c) t (LC c ran Wd).
+Proof. exact constraint_trapezoid. Qed.
+Print Assumptions C01_trapezoid.
+
+(* one- and two-sided bounds, no guard at all *)
+Theorem C01_bounds : forall c, cfg_valid c -> forall ran Wd,
+  lower_ok (l_shape c) (l_min c) (LC c ran Wd) /\ upper_ok (l_shape c) (l_max c) (LC c ran Wd).
+Proof. exact constraint_bounds. Qed.
+Print Assumptions C01_bounds.
+
+(* a kernel that already satisfies every strict constraint passes through
+   finalize and the final clip unchanged (the Dykstra stage's own fixed-point
+   theorem is C08_feasible_fixed) *)
+Theorem C01_feasible_fixed : forall c, cfg_valid c -> forall ran W,
+  feasible_kernel c W -> teq (l_shape c) (LC c ran W) W.
+Proof. exact constraint_feasible_fixed. Qed.
+Print Assumptions C01_feasible_fixed.
+
+(* Known finding D1: with a trapezoid trust whose conditional feature is
+   monotone and an Edgeworth trust present, the strict constraint returns a
+   kernel that DECREASES along the (monotone) conditional dimension. *)
+Definition d1_cfg : lat_cfg := mkLat [2;2;2]%nat 1 [1;1;0]%Z [(0,1,1%Z)]%nat [(0,1,1%Z)]%nat None None.
+Definition d1_kernel : tens := of_list (l_shape d1_cfg) [0; 7; -2; 2; -7; -4; -4; 5].
+
+Lemma d1_cfg_valid : cfg_valid d1_cfg.
+Proof.
+  unfold cfg_valid, d1_cfg, all_trusts; cbn [l_sizes l_units l_monos l_edge l_trap l_min l_max app length].
+  repeat split; try lia.
+  - intros s [<-|[<-|[<-|[]]]]; lia.
+  - intros m [<-|[<-|[<-|[]]]]; auto.
+  - intros t [<-|[<-|[]]]; unfold trust_ok; cbn; repeat split; auto.
+  - intros t1 t2 [<-|[<-|[]]] [<-|[<-|[]]]; cbn; discriminate.
+  - intros t1 t2 [<-|[<-|[]]] [<-|[<-|[]]] _; reflexivity.
+Qed.
+
+Theorem C01_refuted_trap_mono_cond :
+  exists c W i d, cfg_valid c /\ trap_mono_cond_with_edgeworth c /\ block_ok c true /\
+    In d (mono_dims (l_monos c)) /\ valid (l_shape c) i /\ (S (nth d i 0%nat) < nth d (l_shape c) 0%nat)%nat /\
+    LC c true W (upd i d (S (nth d i 0%nat))) < LC c true W i.
+Proof.
+  exists d1_cfg, d1_kernel, [0;0;0;0]%nat, 1%nat.
+  split; [exact d1_cfg_valid|]. split.
+  { split; [discriminate|]. exists (0%nat, 1%nat, 1%Z). split; [left; reflexivity|reflexivity]. }
+  split; [left; reflexivity|]. split; [right; left; reflexivity|].
+  split; [repeat constructor|]. split; [cbn; lia|].
+  vm_compute. reflexivity.
+Qed.
+Print Assumptions C01_refuted_trap_mono_cond.
+
+(* the premises of the positive theorems are satisfiable *)
+Example C01_premises_satisfiable :
+  cfg_valid (mkLat [2;3]%nat 2 [1;0]%Z [(0,1,1%Z)]%nat [(0,1,1%Z)]%nat (Some 0) (Some 1)) /\
+  ~ trap_mono_cond_with_edgeworth (mkLat [2;3]%nat 2 [1;0]%Z [(0,1,1%Z)]%nat [(0,1,1%Z)]%nat (Some 0) (Some 1)) /\
+  ~ documented_exception (mkLat [2;3]%nat 2 [1;0]%Z [(0,1,1%Z)]%nat [(0,1,1%Z)]%nat (Some 0) (Some 1)).
+Proof.
+  split; [|split].
+  - unfold cfg_valid, all_trusts; cbn [l_sizes l_units l_monos l_edge l_trap l_min l_max app length].
+    repeat split; try lia; try lra.
+    + intros s [<-|[<-|[]]]; lia.
+    + intros m [<-|[<-|[]]]; auto.
+    + intros t [<-|[<-|[]]]; unfold trust_ok; cbn; repeat split; auto.
+    + intros t1 t2 [<-|[<-|[]]] [<-|[<-|[]]]; cbn; discriminate.
+    + intros t1 t2 [<-|[<-|[]]] [<-|[<-|[]]]; cbn; congruence.
+  - intros [_ [t [[<-|[]] H]]]. cbn in H. discriminate.
+  - intros [_ (t1 & t2 & l1 & l2 & l3 & E & _)]. cbn [l_trap] in E.
+    destruct l1 as [|a l1]; cbn in E.
+    + injection E as _ E. destruct l2; discriminate.
+    + injection E as _ E. destruct l1; discriminate.
+Qed.
